@@ -12,27 +12,32 @@ Lemma zmax_opt_none l : zmax_opt l = None <-> l = [].
 Proof. destruct l; cbn [zmax_opt]; split; congruence. Qed.
 
 Lemma sc_loop_some (ps : list probe) : forall i c t sh, sc_loop i c t ps = Some sh ->
-  Forall (fun p => p_clu p <> [] /\ p_tmpl p <> []) ps.
+  Forall (fun p => p_clu p <> []) ps.
 Proof.
   induction ps as [|p r IH]; intros i c t sh H; [constructor|]. cbn [sc_loop] in H.
   destruct (zmax_opt (p_clu p)) as [mc|] eqn:Ec; [|discriminate].
-  destruct (zmax_opt (p_tmpl p)) as [mt|] eqn:Et; [|discriminate].
   destruct (mc + 1 <? 0); [discriminate|].
-  destruct (sc_loop (i + 1) (c + (mc + 1)) (t + (mt + 1)) r) as [rest|] eqn:Er; [|discriminate].
+  destruct (sc_loop (i + 1) (c + (mc + 1)) (t + p_ntmpl p) r) as [rest|] eqn:Er; [|discriminate].
   constructor; [|eapply IH; exact Er].
-  split; intros E; [rewrite E in Ec|rewrite E in Et]; discriminate.
+  intros E; rewrite E in Ec; discriminate.
 Qed.
 
-(* the error exits: no probe at all (assert subdirs); a probe without spikes (np.max of an empty array) *)
+(* the error exits: no probe at all (assert subdirs); a probe without spikes (np.max of its empty spike_clusters; the
+   repaired code no longer evaluates np.max(spike_templates), so an empty spike_templates alone is an error exit only
+   together with the equal lengths of the probe's per-spike arrays) *)
 Theorem thm_error_exits : merge (@nil probe) = None /\
-  forall (ps : list probe) p, In p ps -> p_clu p = [] \/ p_tmpl p = [] -> merge ps = None.
+  forall (ps : list probe) p, In p ps -> p_clu p = [] \/ (wf_len p /\ p_tmpl p = []) -> merge ps = None.
 Proof.
-  split; [reflexivity|]. intros ps p Hp He. destruct (merge ps) as [m|] eqn:E; [exfalso|reflexivity].
+  split; [reflexivity|]. intros ps p Hp He.
+  assert (Hc : p_clu p = []).
+  { destruct He as [E|[(_ & L2 & L3) E]]; [exact E|]. rewrite E in L2. cbn [length] in L2. rewrite <- L2 in L3.
+    destruct (p_clu p); [reflexivity|discriminate]. }
+  destruct (merge ps) as [m|] eqn:E; [exfalso|reflexivity].
   unfold merge in E. destruct ps as [|p0 r0]; [discriminate|].
   destruct (take _ _); [|discriminate]. destruct (load_spike_arrays (map _ _) _); [|discriminate].
   destruct (load_spike_arrays (map _ _) _); [|discriminate].
   destruct (sc_loop 0 0 0 (p0 :: r0)) as [sh|] eqn:Es; [|discriminate].
-  apply sc_loop_some in Es. rewrite Forall_forall in Es. destruct (Es p Hp). tauto.
+  apply sc_loop_some in Es. rewrite Forall_forall in Es. exact (Es p Hp Hc).
 Qed.
 End ErrorExits.
 
